@@ -312,6 +312,8 @@ def run(ctx):
     lib.obligation_gate(rep, ctx, "C18", found)
     rep.cov["evaluations"] = len(cases) + nb
     rep.cov["distinct_nontrivial"] = len(nontriv)
+    rep.cov["text_oracle"] = ("every in-fragment case of the grid is also compared with an oracle written from the property's text (flag, else variable even if empty, else default; "
+                              "lists split, trimmed, empties dropped, check codes upper-cased; boolean spellings), independent of the model whose parameters are regenerated from the source")
     rep.cov["rule"] = ("in-process public API: the full grid {flag absent, bare, empty, value} x {env unset, empty, value} for the boolean (%d spellings) and for both lists (%d values), "
                        "random combinations of all three options incl. repeated flags, and fuzzed environment bytes (non-ASCII = out of fragment, compared but never reported); "
                        "plus %d runs of the real binary in a fresh process on the probe module (every planted violation reveals one option). "
